@@ -12,8 +12,8 @@ use raw::{
 
 #[derive(Copy, Clone, Default, Debug)]
 pub(super) struct UnscaledPoint {
-    pub x: i16,
-    pub y: i16,
+    pub x: i32,
+    pub y: i32,
     pub flags: PointFlags,
     pub is_contour_start: bool,
 }
@@ -24,7 +24,7 @@ impl UnscaledPoint {
         flags: PointFlags,
         is_contour_start: bool,
     ) -> Self {
-        let point = point.map(|x| (x.to_bits() >> 6) as i16);
+        let point = point.map(|x| x.to_bits() >> 6);
         Self {
             x: point.x,
             y: point.y,
@@ -171,8 +171,8 @@ where
         if self
             .sink
             .push(UnscaledPoint {
-                x: x as i16,
-                y: y as i16,
+                x: x as i32,
+                y: y as i32,
                 flags,
                 is_contour_start,
             })
